@@ -30,20 +30,78 @@ type rvalue struct { // reflect.Value model
 
 type rtype struct{ t types.Type }
 
-func (ip *Interp) unwrapErr(e Iface) (Iface, bool) {
+// unwrapAll returns the errors e wraps (Unwrap() error or Unwrap() []error).
+func (ip *Interp) unwrapAll(e Iface) []Iface {
 	if e.T == nil {
-		return Iface{}, false
+		return nil
 	}
 	m := ip.findMethod(e.T, "Unwrap")
 	if m == nil || m.Signature.Params().Len() != 0 || m.Signature.Results().Len() != 1 {
-		return Iface{}, false
-	}
-	if _, isSlice := m.Signature.Results().At(0).Type().Underlying().(*types.Slice); isSlice {
-		panic(unsupported("errors: Unwrap() []error"))
+		return nil
 	}
 	r := ip.call(ip.curFrame, m, []Value{e.V})
-	ri, ok := r.(Iface)
-	return ri, ok && ri.T != nil
+	if sl, isSlice := r.(Slice); isSlice {
+		var out []Iface
+		for i := 0; i < sl.Len; i++ {
+			if x, ok := (*sl.at(i)).(Iface); ok && x.T != nil {
+				out = append(out, x)
+			}
+		}
+		return out
+	}
+	if ri, ok := r.(Iface); ok && ri.T != nil {
+		return []Iface{ri}
+	}
+	return nil
+}
+
+// errIs implements errors.Is (depth-first over the tree of wrapped errors).
+func (ip *Interp) errIs(fr *frame, err, target Iface, depth int) bool {
+	if depth > 50 {
+		panic(unsupported("errors.Is: chain too long"))
+	}
+	if err.T == nil {
+		return target.T == nil
+	}
+	if target.T != nil && types.Identical(err.T, target.T) && types.Comparable(err.T) {
+		if ip.truth(ip.eq(err.T, err.V, target.V)) {
+			return true
+		}
+	}
+	if m := ip.findMethod(err.T, "Is"); m != nil && m.Signature.Params().Len() == 1 {
+		if ip.truth(ip.call(fr, m, []Value{err.V, target})) {
+			return true
+		}
+	}
+	for _, next := range ip.unwrapAll(err) {
+		if ip.errIs(fr, next, target, depth+1) {
+			return true
+		}
+	}
+	return false
+}
+
+func (ip *Interp) errAs(err Iface, want types.Type, target Value, depth int) bool {
+	if depth > 50 || err.T == nil {
+		return false
+	}
+	match := false
+	var val Value
+	if wi, isI := want.Underlying().(*types.Interface); isI {
+		match, val = types.Implements(err.T, wi), Value(err)
+	} else {
+		match, val = types.Identical(err.T, want), err.V
+	}
+	if match {
+		ip.store(want, target, val)
+		return true
+	}
+	for _, next := range ip.unwrapAll(err) {
+		if ip.errAs(next, want, target, depth+1) {
+			return true
+		}
+	}
+	return false
 }
 
 func registerEnv(ip *Interp) {
@@ -59,28 +117,7 @@ func registerEnv(ip *Interp) {
 	})
 	// ---- errors
 	ip.reg("errors.Is", func(ip *Interp, fr *frame, a []Value) Value {
-		err, target := a[0].(Iface), a[1].(Iface)
-		for depth := 0; depth < 50; depth++ {
-			if err.T == nil {
-				return ip.ctx.Bool(target.T == nil)
-			}
-			if target.T != nil && types.Identical(err.T, target.T) && types.Comparable(err.T) {
-				if ip.truth(ip.eq(err.T, err.V, target.V)) {
-					return ip.ctx.True
-				}
-			}
-			if m := ip.findMethod(err.T, "Is"); m != nil && m.Signature.Params().Len() == 1 {
-				if ip.truth(ip.call(fr, m, []Value{err.V, target})) {
-					return ip.ctx.True
-				}
-			}
-			next, ok := ip.unwrapErr(err)
-			if !ok {
-				return ip.ctx.False
-			}
-			err = next
-		}
-		panic(unsupported("errors.Is: chain too long"))
+		return ip.ctx.Bool(ip.errIs(fr, a[0].(Iface), a[1].(Iface), 0))
 	})
 	ip.reg("errors.As", func(ip *Interp, fr *frame, a []Value) Value {
 		err, target := a[0].(Iface), a[1].(Iface)
@@ -91,26 +128,7 @@ func registerEnv(ip *Interp) {
 		if !ok {
 			ip.rtPanic("errors: target must be a non-nil pointer")
 		}
-		want := pt.Elem()
-		for depth := 0; depth < 50 && err.T != nil; depth++ {
-			match := false
-			var val Value
-			if wi, isI := want.Underlying().(*types.Interface); isI {
-				match, val = types.Implements(err.T, wi), Value(err)
-			} else {
-				match, val = types.Identical(err.T, want), err.V
-			}
-			if match {
-				ip.store(want, target.V, val)
-				return ip.ctx.True
-			}
-			next, ok := ip.unwrapErr(err)
-			if !ok {
-				break
-			}
-			err = next
-		}
-		return ip.ctx.False
+		return ip.ctx.Bool(ip.errAs(err, pt.Elem(), target.V, 0))
 	})
 	// ---- log/slog attribute constructors (values only travel to the stubbed logger)
 	for _, n := range []string{"log/slog.String", "log/slog.Bool", "log/slog.Any", "log/slog.Int", "log/slog.Duration"} {
